@@ -122,6 +122,15 @@ _VEC_RE = re.compile(r'^<<"([A-Z_]+)", (".*")>>(?:  (?:TRUE|FALSE))?$')
 
 
 def _parse_tlc_output(res, out, want_tags=("VEC",)):
+    try:
+        _parse_tlc_output_(res, out)
+    finally:
+        # TLC's workers print in no particular order: everything downstream (numbering of worlds, sampling by index, which
+        # violation is reported first) must not depend on it
+        res.vecs.sort(key=lambda v: json.dumps(v, sort_keys=True))
+
+
+def _parse_tlc_output_(res, out):
     lines = out.splitlines()
     for ln in lines:
         m = _VEC_RE.match(ln)
@@ -285,7 +294,7 @@ class Outcome:
         """Print KNOWN-FINDING / VIOLATION lines; return (exit code, n_unlisted)."""
         seen_known = {}
         unlisted = []
-        for key, desc, replay in self.violations:
+        for key, desc, replay in sorted(self.violations, key=lambda v: v[0]):
             f = self._match(key)
             if f is not None:
                 seen_known.setdefault(f["id"], (f, key, desc))
